@@ -56,6 +56,11 @@ TRAITS = [("is_convertible", "std::is_convertible<B, A>::value"), ("is_construct
           ("has_common_type", "auv_has_common<A, B>::value"),
           ("pt_is_convertible", "std::is_convertible<PB, PA>::value"), ("pt_is_constructible", "std::is_constructible<PA, PB>::value"),
           ("q_from_pt", "std::is_convertible<PB, A>::value"), ("pt_from_q", "std::is_convertible<B, PA>::value")]
+# the same questions with integral reps (the promotion carve-out and the overflow heuristic must not bypass the dimension guard)
+INT_TRAITS = [("int_is_convertible", "std::is_convertible<BI, AI>::value"), ("int_is_constructible", "std::is_constructible<AI, BI>::value"),
+              ("int_is_assignable", "std::is_assignable<AI &, BI>::value"), ("int_has_common_type", "auv_has_common<AI, BI>::value"),
+              ("int_narrowing_is_convertible", "std::is_convertible<Quantity<U2, int64_t>, Quantity<U1, int8_t>>::value"),
+              ("int_pt_is_convertible", "std::is_convertible<QuantityPoint<U2, int>, QuantityPoint<U1, int>>::value")]
 
 
 def decls(sp, e1, e2, rep="double"):
@@ -81,16 +86,19 @@ def run(ctx):
     hdrs = "\n".join('#include "%s"' % h for h in sp.headers()) + '\n#include "au/prefix.hh"'
     rnd = random.Random(ctx.seed)
     mism = [p for p in pairs if not p["samedim"]]
-    same = [p for p in pairs if p["samedim"]]
+    # same-dimension twins: two *distinct* unit types of identical magnitude (and origin) fall under the documented ordering limitation
+    same = [p for p in pairs if p["samedim"] and (not p["samemag"] or expr_str(p["e1"]) == expr_str(p["e2"]) or {expr_str(p["e1"]), expr_str(p["e2"])} == {"Celsius", "Kelvins"})]
     rnd.shuffle(mism)
     rnd.shuffle(same)
     nm, ns = (14, 12) if ctx.tier == "quick" else (120, 60)
     # always include the classic pairs
     def find(l, a, b):
         return [p for p in l if expr_str(p["e1"]) == a and expr_str(p["e2"]) == b]
-    fixed = find(mism, "Celsius", "Meters") + find(mism, "Meters", "Seconds") + find(mism, "Unos", "Radians") + find(mism, "Hertz", "Seconds")
+    fixed = (find(mism, "Celsius", "Meters") + find(mism, "Meters", "Seconds") + find(mism, "Unos", "Radians") + find(mism, "Hertz", "Seconds") +
+             find(mism, "Meters^3/2", "Feet^1/2") + find(mism, "Feet^1/2", "Meters^3/2") + find(mism, "Feet^2/3", "Meters^1/2") + find(mism, "Seconds^-1/2", "Seconds^-1"))
     mism = fixed + [p for p in mism if p not in fixed][:nm]
-    same = find(same, "Meters", "Feet") + find(same, "Celsius", "Kelvins") + find(same, "Seconds", "Seconds") + [p for p in same][:ns]
+    same = (find(same, "Meters", "Feet") + find(same, "Celsius", "Kelvins") + find(same, "Seconds", "Seconds") + find(same, "Seconds^-1/2", "kilo(Hertz)^1/2") +
+            find(same, "Meters^3/2", "Meters^3/2") + find(same, "Feet^1/2", "Meters^1/2") + [p for p in same][:ns])
     cfgs = core.QUICK_CONFIGS if ctx.tier == "quick" else core.ALL_CONFIGS
     probe_cfgs = cfgs[:2] if ctx.tier == "quick" else cfgs
     pchf = {cfg: ctx.pch(cfg, "c01", PRELUDE % hdrs) for cfg in cfgs}
@@ -155,8 +163,8 @@ def run(ctx):
     tf = [f for lst in ctx.pmap(twin, tj) for f in lst]
     ctx.programs += ncomp[0]
     for p, cfg, (name, stmt), diag in tf:
-        if not core.first_error_in_au(diag):
-            raise core.ToolError("generated twin does not compile (generator bug?): %s\n%s" % (stmt, diag[:600]))
+        # the statement forms are fixed and compile on same-dimension twins of the unchanged tree, so a failure -- wherever the
+        # compiler locates it (often at the call site: "no match for operator+=") -- is the library rejecting a valid program
         ctx.violation({"op": name, "U1": expr_str(p["e1"]), "U2": expr_str(p["e2"]), "kind": "twin-rejected"},
                       "operation '%s' on same-dimension %s vs %s (floating rep) is rejected [%s]: %s" % (name, expr_str(p["e1"]), expr_str(p["e2"]), cfg, diag[:300]), detail=p)
     ctx.log("twins: %d pairs x %d configs, %d compiles, %d failures" % (len(same), len(cfgs), ncomp[0], len(tf)))
@@ -170,6 +178,11 @@ def run(ctx):
             for name, expr in TRAITS:
                 want = exp if name not in ("q_from_pt", "pt_from_q") else False
                 L.append('static_assert(%s == %s, "t%d %s");' % (expr, "true" if want else "false", k, name))
+            if not exp:
+                for name, expr in INT_TRAITS:
+                    L.append('static_assert(%s == false, "t%d %s");' % (expr, k, name))
+            else:
+                L.append('static_assert(auv_has_common<AI, BI>::value == true, "t%d int_has_common_type");' % k)
             L.append("}")
         return "\n".join(L) + "\nint main() {}\n"
 
